@@ -414,3 +414,70 @@ func (c *Ctx) borrow(prefix string, run func(*Ctx), keep func(rule, construct st
 	}
 	return n
 }
+
+// validatorBodies: the functions whose value a validator maker m may return — anonymous functions of m with the
+// validator signature, and methods / named functions that m turns into a function value (bound method wrappers
+// are resolved to the method they wrap). This is what "the validation function" is, whichever way it is written.
+func validatorBodies(m *ssa.Function) []*ssa.Function {
+	seen := map[*ssa.Function]bool{}
+	var out []*ssa.Function
+	add := func(f *ssa.Function) {
+		if f != nil && f.Blocks != nil && !seen[f] && isValidatorSig(f.Signature) {
+			seen[f] = true
+			out = append(out, f)
+		}
+	}
+	resolve := func(f *ssa.Function) *ssa.Function {
+		if f == nil {
+			return nil
+		}
+		if strings.Contains(f.Synthetic, "bound method wrapper") || strings.HasSuffix(f.Name(), "$bound") {
+			for _, b := range f.Blocks {
+				for _, in := range b.Instrs {
+					if call, ok := in.(ssa.CallInstruction); ok {
+						if g := call.Common().StaticCallee(); g != nil {
+							return g
+						}
+					}
+				}
+			}
+			return nil
+		}
+		return f
+	}
+	for _, an := range m.AnonFuncs {
+		add(an)
+	}
+	for _, b := range m.Blocks {
+		for _, in := range b.Instrs {
+			switch x := in.(type) {
+			case *ssa.MakeClosure:
+				if fn, ok := x.Fn.(*ssa.Function); ok {
+					add(resolve(fn))
+				}
+			case *ssa.Return:
+				for _, r := range x.Results {
+					if fn, ok := r.(*ssa.Function); ok {
+						add(resolve(fn))
+					}
+				}
+			}
+		}
+	}
+	return out
+}
+
+// validatorMakers: production functions returning a value of validator type.
+func (c *Ctx) validatorMakers() []*ssa.Function {
+	var makers []*ssa.Function
+	for _, f := range c.P.RepoFunctions() {
+		if c.isTestFunc(f) || isTestingPkg(load.RelPkg(f)) || f.Parent() != nil {
+			continue
+		}
+		res := f.Signature.Results()
+		if res.Len() == 1 && isValidatorSig(res.At(0).Type()) {
+			makers = append(makers, f)
+		}
+	}
+	return makers
+}
